@@ -1,23 +1,23 @@
-SPECIFICATION Spec
+SPECIFICATION FairSpec
 CONSTANTS
-  Ops = {"o1", "o2", "o3"}
+  Ops = {"o1", "o2"}
   NoOp = "none"
-  MaxId = 5
+  MaxId = 4
   Last0 <- LastWrap
   MaxItems = 1
   ItemTypes <- EntOnly
   MaxOrphans = 0
-  Kinds <- KindsRoles2
-  Tmo = {0}
+  Kinds <- KindsTimed
+  Tmo = {0, 2}
   Horizon = 0
   AllowFaults = FALSE
   AllowCancel = FALSE
-  AllowStall = FALSE
+  AllowStall = TRUE
   AbstractTime = TRUE
   LeakSearchIdOnDone = FALSE
   AbandonKeepsTargetId = FALSE
   DirectStaysActive = FALSE
   StaleInsertAfterScrub = FALSE
-INVARIANTS TypeOK Routing FinalIsFinal StreamOK UniqueIds NoLeak Protected RoutedProtected
-
+INVARIANTS TypeOK
+PROPERTIES TimedReturn
 CHECK_DEADLOCK FALSE
